@@ -24,9 +24,9 @@ func clip(s string, n int) string {
 // witness is what a replay file shows a human; the case itself is re-generated from
 // (seed, property, layer, idx) by `./check Cxx --replay file`.
 func witness(h *History, k int, o OptSet, extra map[string]any) map[string]any {
-	w := map[string]any{"script": h.Script, "batches_in_history": len(h.Batches), "failing_batch_index": k, "producer_options": o.String()}
-	if k >= 0 && k < len(h.Batches) {
-		w["failing_batch_otlp_json"] = clip(h.Batches[k].JSON(), 30000)
+	w := map[string]any{"script": h.Script, "batches_in_history": h.Len(), "failing_batch_index": k, "producer_options": o.String()}
+	if h.Has(k) {
+		w["failing_batch_otlp_json"] = clip(h.At(k).JSON(), 30000)
 	}
 	for kk, v := range extra {
 		w[kk] = v
@@ -46,13 +46,14 @@ func roundTripHistory(c *vc.Case, h *History, o OptSet, prop string) *Stream {
 	c.Seen("producer_lead_modes", fmt.Sprint(min(ahead, 2)))
 	type pending struct {
 		k    int
+		sig  canon.Signal
 		want *canon.Set
 		bar  *colarspb.BatchArrowRecords
 	}
 	var queue []pending
 	dead := false
 	decode := func(p pending) bool {
-		got, _, err, pi := s.Decode(h.Batches[p.k].Sig, p.bar)
+		got, _, err, pi := s.Decode(p.sig, p.bar)
 		lead := fmt.Sprintf(" (producer lead %d)", min(ahead, 2))
 		if ahead == 0 {
 			lead = ""
@@ -71,7 +72,11 @@ func roundTripHistory(c *vc.Case, h *History, o OptSet, prop string) *Stream {
 		}
 		return true
 	}
-	for k, b := range h.Batches {
+	if h.Gen != nil && ahead > 1 {
+		ahead = 1 // lazy (large) histories keep at most two batches alive
+	}
+	for k := 0; k < h.Len(); k++ {
+		b := h.At(k)
 		want, err := b.Canon()
 		if err != nil {
 			c.Inconclusive("canon(input): " + err.Error())
@@ -98,7 +103,8 @@ func roundTripHistory(c *vc.Case, h *History, o OptSet, prop string) *Stream {
 			dead = true
 			break
 		}
-		queue = append(queue, pending{k, want, bar})
+		queue = append(queue, pending{k, b.Sig, want, bar})
+		h.Forget(k - 1) // the input itself is only needed for a witness; keep the current one
 		for len(queue) > ahead {
 			ok := decode(queue[0])
 			queue = queue[1:]
@@ -124,7 +130,7 @@ func roundTripHistory(c *vc.Case, h *History, o OptSet, prop string) *Stream {
 		fields = append(fields, f)
 	}
 	sort.Strings(fields)
-	c.FP(h.Script, fmt.Sprintf("nb=%d", len(h.Batches)), fmt.Sprintf("cont=%d", containers), strings.Join(fields, ","), fmt.Sprintf("upd=%d", s.Obs.Get("schema_update")))
+	c.FP(h.Script, fmt.Sprintf("nb=%d", h.Len()), fmt.Sprintf("cont=%d", containers), strings.Join(fields, ","), fmt.Sprintf("upd=%d", s.Obs.Get("schema_update")))
 	for k, v := range s.Obs.Counts {
 		c.Count("obs."+k, v)
 	}
@@ -132,8 +138,8 @@ func roundTripHistory(c *vc.Case, h *History, o OptSet, prop string) *Stream {
 		c.Seen("optional_columns_seen_appearing", f)
 	}
 	c.Seen("scripts", h.Script)
-	c.Max("max_batches_in_history", int64(len(h.Batches)))
-	c.Nontrivial(len(h.Batches) >= 2 || s.Obs.Get("schema_update") > 0 || containers >= 2)
+	c.Max("max_batches_in_history", int64(h.Len()))
+	c.Nontrivial(h.Len() >= 2 || s.Obs.Get("schema_update") > 0 || containers >= 2)
 	return s
 }
 
@@ -186,7 +192,7 @@ func runRoundTrip(t *testing.T, prop string, sig canon.Signal) {
 	r.Layer("template", NumTemplates()*e.Pick(2, 20), func(c *vc.Case) {
 		h := TemplateHistory(c.R, sig, c.Idx%NumTemplates())
 		roundTripHistory(c, h, DefaultOpts(), prop)
-		c.Sample(map[string]any{"script": h.Script, "batches": len(h.Batches)})
+		c.Sample(map[string]any{"script": h.Script, "batches": h.Len()})
 	})
 	r.Layer("history", e.Pick(400, 5000), func(c *vc.Case) {
 		g := gen.New(c.R, gen.DValid)
@@ -194,7 +200,7 @@ func runRoundTrip(t *testing.T, prop string, sig canon.Signal) {
 		h := GenHistory(c.R, g, []canon.Signal{sig}, e.Pick(8, 40), e.Pick(12, 40))
 		roundTripHistory(c, h, DefaultOpts(), prop)
 		if c.Idx < 64 {
-			c.Sample(map[string]any{"script": h.Script, "batches": len(h.Batches), "first_batch": clip(h.Batches[0].JSON(), 600)})
+			c.Sample(map[string]any{"script": h.Script, "batches": h.Len(), "first_batch": clip(h.At(0).JSON(), 600)})
 		}
 	})
 	r.Layer("big", e.Pick(6, 30), func(c *vc.Case) {
